@@ -1,4 +1,5 @@
-(* Proofs about Model/Stream.v (C04, C17). *)
+(* Proofs about Model/Stream.v, part 1: selection on trees (sel / match_any / match_node, the
+   recursive specification [spec] and its equality with "outermost matches, then filter"). *)
 From Coq Require Import List NArith Bool Arith Lia.
 Import ListNotations.
 From OV Require Import Base.Bytes Base.Cases Base.Tree Model.Stream.
@@ -12,3 +13,187 @@ Proof.
   destruct (s_stream st) eqn:E; try discriminate. inversion H; subst.
   unfold remove_closed. destruct (s_stack st); reflexivity.
 Qed.
+
+Lemma path_eqb_refl : forall p, path_eqb p p = true.
+Proof. induction p; simpl; [reflexivity|]. unfold path_eqb in *. simpl. rewrite Nat.eqb_refl, IHp. reflexivity. Qed.
+
+Lemma path_eqb_eq : forall p q, path_eqb p q = true <-> p = q.
+Proof. intros. unfold path_eqb. apply list_eqb_eq. intros. apply Nat.eqb_eq. Qed.
+
+Section Sel.
+  Variable pm : list name -> bool.
+  Variable pred : tree -> bool.
+
+  Lemma sel_unfold : forall chain pos ty d f ks,
+    sel pm pred chain pos (T ty d f ks) =
+    (if pm chain && pred (T ty d f ks) then [(pos, T ty d f ks)] else [])
+    ++ sel_kids pm pred chain pos 0 ks.
+  Proof.
+    intros. cbn [sel]. f_equal. generalize 0.
+    induction ks as [|k r IH]; intro i; [reflexivity|].
+    cbn [sel_kids]. rewrite <- IH. reflexivity.
+  Qed.
+
+  Lemma sel_kids_app : forall chain pos l1 l2 i,
+    sel_kids pm pred chain pos i (l1 ++ l2) =
+    sel_kids pm pred chain pos i l1 ++ sel_kids pm pred chain pos (length l1 + i) l2.
+  Proof.
+    induction l1 as [|k r IH]; intros; simpl; [reflexivity|].
+    rewrite IH, <- app_assoc. do 3 f_equal. lia.
+  Qed.
+
+  (* positions are relative: selecting below [pos] is selecting below [] and prefixing *)
+  Lemma sel_shift : forall t chain pos,
+    sel pm pred chain pos t = map (fun x => (pos ++ fst x, snd x)) (sel pm pred chain [] t).
+  Proof.
+    induction t as [ty d f ks IH] using tree_ind2. intros chain pos.
+    rewrite !sel_unfold, map_app. f_equal.
+    - destruct (pm chain && pred (T ty d f ks)); simpl; [rewrite app_nil_r|]; reflexivity.
+    - generalize 0. induction IH as [|k r Hk _ IHr]; intro i; simpl; [reflexivity|].
+      rewrite map_app, IHr. f_equal.
+      destruct (is_element k); [|reflexivity].
+      rewrite (Hk _ (pos ++ [i])), (Hk _ ([] ++ [i])), map_map. apply map_ext.
+      intros [p x]; simpl. rewrite <- app_assoc. reflexivity.
+  Qed.
+End Sel.
+
+(* ---- "does any node match": MatchAny with the filter-less xpath ------------------------------- *)
+Section HasMatch.
+  Variable pm : list name -> bool.
+
+  Fixpoint has_match (c : list name) (t : tree) {struct t} : bool :=
+    let 'T _ _ _ ks := t in
+    pm c || (fix go (l : list tree) : bool :=
+               match l with
+               | [] => false
+               | k :: r => (is_element k && has_match (c ++ [node_name k]) k) || go r
+               end) ks.
+  Fixpoint hm_kids (c : list name) (l : list tree) : bool :=
+    match l with
+    | [] => false
+    | k :: r => (is_element k && has_match (c ++ [node_name k]) k) || hm_kids c r
+    end.
+
+  Lemma has_match_unfold : forall c ty d f ks,
+    has_match c (T ty d f ks) = pm c || hm_kids c ks.
+  Proof.
+    intros. cbn [has_match]. f_equal. induction ks as [|k r IH]; [reflexivity|].
+    cbn [hm_kids]. rewrite <- IH. reflexivity.
+  Qed.
+
+  Lemma hm_kids_app : forall c l1 l2, hm_kids c (l1 ++ l2) = hm_kids c l1 || hm_kids c l2.
+  Proof. induction l1; intros; simpl; [reflexivity|]. rewrite IHl1, orb_assoc. reflexivity. Qed.
+
+  Lemma sel_nil_has_match : forall t c pos,
+    (match sel pm ptrue c pos t with [] => true | _ => false end) = negb (has_match c t).
+  Proof.
+    induction t as [ty d f ks IH] using tree_ind2. intros c pos.
+    rewrite sel_unfold, has_match_unfold. unfold ptrue at 1. rewrite andb_true_r.
+    destruct (pm c); simpl; [reflexivity|].
+    generalize 0. induction IH as [|k r Hk _ IHr]; intro i; simpl; [reflexivity|].
+    destruct (is_element k); simpl; [|apply IHr].
+    specialize (Hk (c ++ [node_name k]) (pos ++ [i])).
+    destruct (sel pm ptrue (c ++ [node_name k]) (pos ++ [i]) k); simpl.
+    - simpl in Hk. symmetry in Hk. apply negb_true_iff in Hk. rewrite Hk. apply IHr.
+    - simpl in Hk. symmetry in Hk. apply negb_false_iff in Hk. rewrite Hk. reflexivity.
+  Qed.
+
+  Lemma match_any_has_match : forall root, match_any pm ptrue root = has_match [] root.
+  Proof. intros. unfold match_any. rewrite sel_nil_has_match, negb_involutive. reflexivity. Qed.
+End HasMatch.
+
+(* ---- "is this node among the matches": matchNode with the full xpath -------------------------- *)
+Section Lookup.
+  Variable pm : list name -> bool.
+  Variable pred : tree -> bool.
+
+  (* the node at position p, with its name chain; only element children are entered *)
+  Fixpoint lookup (c : list name) (t : tree) (p : path) {struct p} : option (list name * tree) :=
+    match p with
+    | [] => Some (c, t)
+    | i :: q => match nth_error (t_kids t) i with
+                | Some k => if is_element k then lookup (c ++ [node_name k]) k q else None
+                | None => None
+                end
+    end.
+
+  Definition hit (p : path) (x : path * tree) : bool := path_eqb (fst x) p.
+
+  Lemma existsb_hit_shift : forall i l p,
+    existsb (hit p) (map (fun x : path * tree => (i :: fst x, snd x)) l) =
+    match p with
+    | [] => false
+    | j :: q => Nat.eqb i j && existsb (hit q) l
+    end.
+  Proof.
+    intros i l p. induction l as [|[a x] l IH]; simpl.
+    - destruct p; [reflexivity|]. rewrite andb_false_r. reflexivity.
+    - rewrite IH. unfold hit at 1. simpl. unfold path_eqb. destruct p as [|j q]; simpl; [reflexivity|].
+      unfold hit at 2. simpl. unfold path_eqb. destruct (Nat.eqb i j); simpl; reflexivity.
+  Qed.
+
+  Lemma mem_sel : forall t c p,
+    existsb (hit p) (sel pm pred c [] t) =
+    match lookup c t p with Some (c', t') => pm c' && pred t' | None => false end.
+  Proof.
+    induction t as [ty d f ks IH] using tree_ind2. intros c p.
+    rewrite sel_unfold, existsb_app.
+    destruct p as [|j q].
+    - (* the node itself *)
+      cbn [lookup].
+      assert (Hk : forall i, existsb (hit []) (sel_kids pm pred c [] i ks) = false).
+      { clear IH. induction ks as [|k r IHr]; intro i; simpl; [reflexivity|].
+        rewrite existsb_app, IHr, orb_false_r.
+        destruct (is_element k); [|reflexivity].
+        rewrite sel_shift. simpl app. rewrite (existsb_hit_shift i). reflexivity. }
+      rewrite Hk, orb_false_r.
+      destruct (pm c && pred (T ty d f ks)); reflexivity.
+    - (* below *)
+      assert (Hg : forall i, existsb (hit (j :: q)) (sel_kids pm pred c [] i ks) =
+                match (if Nat.leb i j then nth_error ks (j - i) else None) with
+                | Some k => if is_element k
+                            then match lookup (c ++ [node_name k]) k q with
+                                 | Some (c', t') => pm c' && pred t' | None => false end
+                            else false
+                | None => false
+                end).
+      { induction IH as [|k r Hk _ IHr]; intro i.
+        - simpl. destruct (Nat.leb i j); [destruct (j - i)|]; reflexivity.
+        - cbn [sel_kids]. rewrite existsb_app, IHr.
+          destruct (Nat.leb i j) eqn:Hij.
+          + apply Nat.leb_le in Hij. destruct (Nat.eq_dec i j) as [->|Hne].
+            * rewrite Nat.sub_diag. cbn [nth_error].
+              assert (Hlt : Nat.leb (S j) j = false) by (apply Nat.leb_gt; lia).
+              rewrite Hlt, orb_false_r.
+              destruct (is_element k); [|reflexivity].
+              rewrite sel_shift. simpl app. rewrite (existsb_hit_shift j), Nat.eqb_refl. simpl.
+              apply Hk.
+            * assert (Hle : Nat.leb (S i) j = true) by (apply Nat.leb_le; lia).
+              rewrite Hle. replace (j - i) with (S (j - S i)) by lia. cbn [nth_error].
+              assert (Hz : existsb (hit (j :: q))
+                        (if is_element k then sel pm pred (c ++ [node_name k]) ([] ++ [i]) k else []) = false).
+              { destruct (is_element k); [|reflexivity].
+                rewrite sel_shift. simpl app. rewrite (existsb_hit_shift i).
+                apply Nat.eqb_neq in Hne. rewrite Hne. reflexivity. }
+              rewrite Hz. reflexivity.
+          + apply Nat.leb_gt in Hij.
+            assert (Hgt : Nat.leb (S i) j = false) by (apply Nat.leb_gt; lia).
+            rewrite Hgt, orb_false_r.
+            destruct (is_element k); [|reflexivity].
+            rewrite sel_shift. simpl app. rewrite (existsb_hit_shift i).
+            assert (Hne : Nat.eqb i j = false) by (apply Nat.eqb_neq; lia).
+            rewrite Hne. reflexivity. }
+      match goal with |- existsb ?h ?l || _ = _ =>
+        assert (Hself : existsb h l = false)
+          by (destruct (pm c && pred (T ty d f ks)); reflexivity) end.
+      rewrite Hself. simpl orb. cbn [lookup t_kids].
+      rewrite Hg. simpl Nat.leb. rewrite Nat.sub_0_r.
+      destruct (nth_error ks j) as [k|]; [|reflexivity].
+      destruct (is_element k); reflexivity.
+  Qed.
+
+  Lemma match_node_lookup : forall root p,
+    match_node pm pred root p =
+    match lookup [] root p with Some (c, t) => pm c && pred t | None => false end.
+  Proof. intros. unfold match_node. apply (mem_sel root [] p). Qed.
+End Lookup.
